@@ -554,7 +554,7 @@ func openSSH(b Backend) *leaf {
 	if err != nil {
 		infra("fakessh.Setup: %v", err)
 	}
-	s, err := fakessh.RemoteSSHStore(dir, desync.StoreOptions{N: 1})
+	s, err := fakessh.RemoteSSHStore(dir, desync.StoreOptions{N: 3}) // three sessions (three `desync pull` children)
 	cleanup()
 	os.RemoveAll(wrap)
 	if err != nil {
